@@ -626,3 +626,176 @@ _run_c35c = run
 def run(ctx):  # noqa: F811
     _run_c35c(ctx)
     r35_6(ctx, ctx.model)
+
+
+# ---------------------------------------------------------------------------------------------------------------- R35.8 - R35.10
+_C35_MODS = ("nifty.cl.library.los_response", "nifty.cl.library.nft", "nifty.re.extra.sampling_los", "nifty.cl.operators.regridding_operator",
+             "nifty.cl.operators.field_zero_padder", "nifty.cl.operators.mask_operator", "nifty.cl.operators.linear_interpolation")
+
+
+def r35_8(ctx, m):
+    R = "R35.8"
+    ctx.rule(R, "response operators: every option a constructor (or a public module function) accepts is read in its body - an accepted "
+                "and documented option that no statement reads (interpolation order, truncation, ...) is silently replaced by the "
+                "callee's default", floor=8)
+    for mn in _C35_MODS:
+        mod = m.module(mn, required=False)
+        if mod is None:
+            continue
+        for fi in mod.all_functions:
+            if not (fi.name == "__init__" or (fi.parent is None and fi.cls is None and not fi.name.startswith("_"))):
+                continue
+            a = fi.node.args
+            params = [x.arg for x in a.posonlyargs + a.args + a.kwonlyargs if x.arg not in ("self", "cls") and not x.arg.startswith("_")]
+            if not params:
+                continue
+            ctx.saw_func(fi)
+            loads = {z.id for z in ast.walk(fi.node) if isinstance(z, ast.Name) and isinstance(z.ctx, ast.Load)}
+            dead = [p for p in params if p not in loads]
+            ctx.check(R, f"{fi.key}::every accepted option is read", not dead, f"never read: {dead}" if dead else "", fi)
+
+
+def r35_9(ctx, m):
+    R = "R35.9"
+    ctx.rule(R, "response operators: no computed value is dropped - every local that is assigned is read afterwards (a truncated ray "
+                "end that is computed and then not used means the integral runs to the nominal end)", floor=20)
+    for mn in _C35_MODS:
+        mod = m.module(mn, required=False)
+        if mod is None:
+            continue
+        for fi in mod.all_functions:
+            stores = {}
+            for z in walk_no_nested(fi.node):
+                if isinstance(z, ast.Name) and isinstance(z.ctx, ast.Store):
+                    stores.setdefault(z.id, z.lineno)
+            stores = {k: v for k, v in stores.items() if not k.startswith("_")}
+            if not stores:
+                continue
+            ctx.saw_func(fi)
+            loads = {z.id for z in ast.walk(fi.node) if isinstance(z, ast.Name) and isinstance(z.ctx, ast.Load)}
+            dead = sorted(k for k in stores if k not in loads)
+            ctx.check(R, f"{fi.key}::assigned locals are used", not dead, f"assigned but never read: {[(k, stores[k]) for k in dead]}" if dead else "", fi)
+
+
+_SHIFT_SELFTEST = '''
+class N:
+    def apply(self, x, mode):
+        if mode == self.TIMES:
+            res = nu2u(points=x, forward=False, fft_order=True)
+            res = np.fft.ifftshift(res.real)
+        else:
+            grid = np.fft.fftshift(x)
+            res = u2nu(grid=grid, forward=True, fft_order=True)
+        return res
+'''
+
+
+def shift_orientation(fn):
+    """[(call node, 'out'|'in', name)]: np.fft shifts applied to the output of a non-uniform -> uniform transform ('out') or to the
+    grid handed to a uniform -> non-uniform transform ('in')"""
+    out = []
+    env = {}
+    for st in ast.walk(fn):
+        if isinstance(st, ast.Assign) and len(st.targets) == 1 and isinstance(st.targets[0], ast.Name):
+            env.setdefault(st.targets[0].id, []).append(st.value)
+    for z in ast.walk(fn):
+        if isinstance(z, ast.Call) and call_name(z) in ("fftshift", "ifftshift") and z.args:
+            arg = z.args[0]
+            names = {q.id for q in ast.walk(arg) if isinstance(q, ast.Name)}
+            from_nu2u = any(isinstance(v, ast.Call) and call_name(v) == "nu2u" for nm in names for v in env.get(nm, ())) or \
+                any(isinstance(q, ast.Call) and call_name(q) == "nu2u" for q in ast.walk(arg))
+            # the shifted array feeds u2nu(grid=...)
+            tgt = [st.targets[0].id for st in ast.walk(fn) if isinstance(st, ast.Assign) and st.value is z and isinstance(st.targets[0], ast.Name)]
+            to_u2nu = any(isinstance(q, ast.Call) and call_name(q) == "u2nu" and any(isinstance(k.value, ast.Name) and k.value.id in tgt for k in q.keywords)
+                          for q in ast.walk(fn)) or any(isinstance(q, ast.Call) and call_name(q) == "u2nu" and any(z is w for w in ast.walk(q)) for q in ast.walk(fn))
+            if from_nu2u:
+                out.append((z, "out", call_name(z)))
+            elif to_u2nu:
+                out.append((z, "in", call_name(z)))
+    return out
+
+
+def r35_10(ctx, m):
+    R = "R35.10"
+    ctx.rule(R, "non-uniform FFT operators: where the grid is kept centred by explicit shifts around a transform in FFT order, the "
+                "transform's OUTPUT is brought to centred order with fftshift and a centred INPUT to FFT order with ifftshift - the two "
+                "coincide for even axis lengths only, so a swapped pair stays adjoint-consistent and rolls odd axes by one pixel", floor=0)
+    t = ast.parse(_SHIFT_SELFTEST)
+    st_ = shift_orientation(t)
+    if sorted((a, b) for _, a, b in st_) != [("in", "fftshift"), ("out", "ifftshift")]:
+        from ..model import AnalysisError
+        raise AnalysisError("R35.10: self-test of the shift matcher failed")
+    mod = m.module("nifty.cl.library.nft")
+    n = 0
+    for fi in mod.all_functions:
+        for z, where, nm in shift_orientation(fi.node):
+            if not any(q is z for q in walk_no_nested(fi.node)):
+                continue
+            n += 1
+            ctx.saw_func(fi)
+            want = "fftshift" if where == "out" else "ifftshift"
+            ctx.check(R, f"{fi.key}::`{short(z, 40)}` ({'output of nu2u' if where == 'out' else 'input of u2nu'})", nm == want,
+                      f"{nm} where {want} is needed: odd axis lengths are rolled by one pixel", fi, z)
+    if not n:
+        ctx.ok(R, "nifty/cl/library/nft.py::no explicit shifts", "the back-end keeps the grid centred (fft_order is not requested)", mod.relpath)
+
+
+_run_c35x = run
+
+
+def run(ctx):  # noqa: F811
+    _run_c35x(ctx)
+    r35_8(ctx, ctx.model)
+    r35_9(ctx, ctx.model)
+    r35_10(ctx, ctx.model)
+
+
+# ---------------------------------------------------------------------------------------------------------------- R35.11
+def r35_11(ctx, m):
+    R = "R35.11"
+    ctx.rule(R, "nifty.re SamplingCartesianGridLOS: start / end are documented as (n_points, n_dim) or (n_dim,): the vmap over axis 0 of "
+                "both is not taken when both are one-dimensional (axis 0 is then the COORDINATE axis) - a single line of sight is "
+                "integrated directly - and the declared target has one entry per line of sight (the broadcast shape without the "
+                "coordinate axis), not the shape of the end points", floor=2)
+    C = m.cls("nifty.re.extra.sampling_los", "SamplingCartesianGridLOS", required=False)
+    if C is None:
+        ctx.und(R, "nifty/re/extra/sampling_los.py::SamplingCartesianGridLOS", "class missing", "nifty/re/extra/sampling_los.py")
+        return
+    call, init = C.methods.get("__call__"), C.methods.get("__init__")
+    ctx.saw_func(call)
+    from ..util import cfg_of, find_nodes, known_atoms
+    cfg = cfg_of(call)
+    vm = [(n, z) for n, z in find_nodes(cfg, lambda q: isinstance(q, ast.Call) and src(q.func).endswith("vmap"))]
+    key = f"{call.key}::single line of sight is not mapped over its coordinate axis"
+    if not vm:
+        ctx.und(R, key, "no vmap found", call)
+    else:
+        n, z = vm[0]
+        atoms = known_atoms(cfg, n.id)
+        excl = any((not pol) and "ndim" in src(t) and "1" in src(t) and "start" in src(t) and "end" in src(t) for t, pol in atoms) or \
+            any((not pol) and "ndim" in src(t) and "== 1" in src(t) for t, pol in atoms)
+        direct = any(isinstance(r, ast.Return) and isinstance(r.value, ast.Call) and src(r.value.func) == "self._los" for r in ast.walk(call.node))
+        ctx.check(R, key, bool(excl and direct), "" if (excl and direct) else
+                  "vmap(in_axes=(None, 0, 0)) is reachable with start.ndim == end.ndim == 1: it maps over the coordinates", call, z)
+    ctx.saw_func(init)
+    key = f"{init.key}::target has one entry per line of sight"
+    tg = [k.value for c in ast.walk(init.node) if isinstance(c, ast.Call) for k in c.keywords if k.arg == "target"]
+    if not tg:
+        ctx.und(R, key, "target= not found", init)
+    else:
+        t = tg[0]
+        arg = t.args[0] if isinstance(t, ast.Call) and t.args else t
+        env = {st.targets[0].id: st.value for st in ast.walk(init.node) if isinstance(st, ast.Assign) and len(st.targets) == 1 and isinstance(st.targets[0], ast.Name)}
+        e = env.get(arg.id, arg) if isinstance(arg, ast.Name) else arg
+        txt = src(e).replace(" ", "")
+        raw = txt.endswith("end.shape") or txt.endswith("start.shape")
+        drops = "[:-1]" in txt
+        ctx.check(R, key, True if drops else (False if raw else None), f"target shape `{src(e)}`" + (": includes the coordinate axis" if raw else ""), init)
+
+
+_run_c35y = run
+
+
+def run(ctx):  # noqa: F811
+    _run_c35y(ctx)
+    r35_11(ctx, ctx.model)
